@@ -924,7 +924,7 @@ non-trivial = derived from a valid encoding or structured generator (everything 
 		}
 	}
 	let _ = std::fs::remove_dir_all(&dir);
-	out.notes.push("checklist: class 1 thresholds (classes every-header-byte, header-length, range-at-file-length, entry-count, varint-width, size-field, page-boundary, buffer-boundary, nesting-limit*, abs-offset-*); class 2 faults before open (every-bit, every-truncation, every-window, every-u32, extend) and after open (after-open: truncate/zero/garbage/extend/delete under a warm reader, then a reopened reader); class 3 payload/range classes (odd-ranges, payload-codec, announced-length, zero-length entries); class 4 option interplay: n.a. for decoders (VPL parameter typing is C18's); class 5 reuse: repeated coordinates, second pass, reopened reader on the same source; class 6: 4 threads looking up concurrently on the one reader; class 7 HTTP: n.a.; class 8 extreme coordinates in every probe list (levels 0/30/31, corners); class 9: both the real writers' layouts and the independent encoders with randomised layout freedoms, non-minimal varints; class 10: cached = uncached = concurrent = reopened answers compared per coordinate (kind inconsistent); bulk streams on corrupted containers are outside the statement (no error channel)".into());
+	out.notes.push("checklist: class 1 thresholds (classes every-header-byte, header-length, range-at-file-length, entry-count, varint-width, size-field, page-boundary, buffer-boundary, nesting-limit*, abs-offset-*); class 2 faults before open (every-bit, every-truncation, every-window, every-u32, extend) and after open (after-open: truncate/zero/garbage/extend/delete under a warm reader, then a reopened reader); class 3 payload/range classes (odd-ranges, payload-codec, announced-length, zero-length entries); class 4 option interplay: n.a. for decoders (VPL parameter typing is C18's); class 5 reuse: repeated coordinates, second pass, reopened reader on the same source; class 6: 4 threads looking up concurrently on the one reader; class 7 HTTP: n.a.; class 8 extreme coordinates in every probe list (levels 0/30/31, corners); class 9: both the real writers' layouts and the independent encoders with randomised layout freedoms, non-minimal varints; class 10: cached = uncached = concurrent = reopened answers compared per coordinate (kind inconsistent); text handling: UNICODE_TRAPS (case-mapping changes the UTF-8 length, combining / direction marks, NUL, BOM, surrogate neighbours, 4-byte characters) before and after every delimiter in tar/directory names, JSON / TileJSON strings, CSV cells, VPL identifiers and values, MBTiles metadata; NUM_BORDERS in every text or stored number that becomes a coordinate, zoom or count; bulk streams on corrupted containers are outside the statement (no error channel)".into());
 	out.extra.insert("alloc_limit".into(), json!(format!("{ALLOC_FACTOR}*|input| + {ALLOC_SLACK}")));
 	out.finish();
 }
